@@ -327,7 +327,11 @@ class TreeGen:
         if self.differentiable:
             self.param_free += 1
         try:
-            k = self._choose(['cmp_real', 'cmp_real', 'cmp_int', 'And', 'Or', 'BelongsTo', 'leaf'])
+            kinds = ['cmp_real', 'cmp_real', 'cmp_int', 'And', 'Or', 'BelongsTo', 'leaf']
+            if self.differentiable:
+                # the engine declares set membership non-differentiable whatever its argument
+                kinds.remove('BelongsTo')
+            k = self._choose(kinds)
             self.nodes += 1
             d = depth - 1
             if k == 'leaf':
@@ -508,6 +512,23 @@ def expression_cases(draw, tier='quick', differentiable=False, min_free=0, n_for
         r = g.real(depth)
         if r[0] == 'Lit':
             r = ['Num', r[1]]
+        # make sure enough free parameters take part, in interacting (non-additive) ways
+        guard = 0
+        while min_free and guard < 6 and sum(1 for b in g.betas.values() if b[5] == 0) < min_free:
+            guard += 1
+            g.allow_fixed = False
+            b1 = g._beta()
+            kind = draw(st.sampled_from(['lin', 'expmul', 'cross', 'ratio', 'inside']))
+            if kind == 'lin':
+                r = ['Plus', r, ['Times', b1, g._real_leaf()]]
+            elif kind == 'expmul':
+                r = ['Times', r, ['exp', ['Times', b1, ['Var', draw(st.sampled_from(info['real']))]]]]
+            elif kind == 'cross':
+                r = ['Plus', r, ['Times', ['Times', b1, g._beta()], g.pos(1)]]
+            elif kind == 'ratio':
+                r = ['Divide', ['Plus', r, b1], ['Plus', ['Num', 1.5], ['PowC', g._beta(), 2.0]]]
+            else:
+                r = ['Times', ['sin', ['Plus', b1, g._real_leaf()]], r]
         roots.append(r)
     # partial dictionary of parameter values (free parameters only; positivity class kept)
     overrides = {}
